@@ -272,7 +272,7 @@ Proof.
 Qed.
 
 (* what slash does to the core, the only part the deposit invariants need *)
-Lemma slash_core cfg s r s1 :
+Lemma slash_core_fields cfg s r s1 :
   slash cfg s r = Ok s1 ->
   exists k b amt,
     get k (binds s) = Some b /\ amt = mul_trunc (b_deposit b) (p_slash cfg)
@@ -308,7 +308,7 @@ Qed.
 (* ------------------------------------------------------------------ *)
 (* expire_req: slash and refund errors are dropped *)
 
-Definition expire_settle (cfg : Params) (s : State) (r : ReqId) (q : Req) (rc : Ctx) : State :=
+Definition expire_money (cfg : Params) (s : State) (r : ReqId) (q : Req) (rc : Ctx) : State :=
   if c_super rc then s
   else
     let sa := match slash cfg s r with Ok x => x | _ => s end in
@@ -317,7 +317,7 @@ Definition expire_settle (cfg : Params) (s : State) (r : ReqId) (q : Req) (rc : 
 Lemma expire_req_eq cfg s r :
   expire_req cfg s r =
   match get r (reqs s), get (rid_ctx r) (ctxs s) with
-  | Some q, Some rc => emit (EvExpire r) (deactivate (expire_settle cfg s r q rc) r)
+  | Some q, Some rc => emit (EvExpire r) (deactivate (expire_money cfg s r q rc) r)
   | _, _ => s
   end.
 Proof. reflexivity. Qed.
@@ -326,13 +326,13 @@ Lemma core_expire_req cfg s r :
   core (expire_req cfg s r) = core s
   \/ exists q rc, get r (reqs s) = Some q /\ get (rid_ctx r) (ctxs s) = Some rc
        /\ c_super rc = false
-       /\ core (expire_req cfg s r) = core (expire_settle cfg s r q rc).
+       /\ core (expire_req cfg s r) = core (expire_money cfg s r q rc).
 Proof.
   rewrite expire_req_eq.
   destruct (get r (reqs s)) as [q|]; [|now left].
   destruct (get (rid_ctx r) (ctxs s)) as [rc|]; [|now left].
   autorewrite with core.
   destruct (c_super rc) eqn:Es.
-  - left. unfold expire_settle. now rewrite Es.
+  - left. unfold expire_money. now rewrite Es.
   - right. exists q, rc. auto.
 Qed.
